@@ -213,8 +213,12 @@ Inductive ItemStr : itemA -> list byte -> Prop :=
 | S_ExtM m dn v s : Oid m -> ValEnc v s ->
     ItemStr (IExt (Some m) None dn v) (dnstr dn ++ ":"%byte :: m ++ ":"%byte :: "="%byte :: s).
 
+(* RFC 4515's grammar is ambiguous on one string shape: "a:dn:=v" is both attribute a with the dn flag and no rule, and attribute a
+   with a matching rule literally named "dn" and no flag. The library (like every LDAP implementation) reads the flag; the second
+   reading is therefore excluded from the completeness statement. Before the repair of F14 this exclusion had to cover every rule
+   name that merely started with "dn". *)
 Definition KnownF14 (it : itemA) : Prop :=
-  match it with IExt (Some m) _ false _ => starts_dn m = true | _ => False end.
+  match it with IExt (Some m) _ false _ => m = ["d"; "n"]%byte | _ => False end.
 
 Definition item_stop (rest : list byte) : Prop := match rest with [] => True | c :: _ => c = ")"%byte end.
 Lemma item_stop_val rest : item_stop rest -> val_stop rest.
@@ -341,34 +345,39 @@ Qed.
 Lemma non_eq_none_colon a rest : AttrDesc a -> non_eq (a ++ ":"%byte :: rest) = None.
 Proof. intros Ha. unfold non_eq. rewrite (attributedescription_app _ _ Ha) by reflexivity. reflexivity. Qed.
 
-(* ":dn" is not taken when what follows the colon is a rule name that does not start with "dn" *)
-Lemma tag_dn_none m rest : Oid m -> starts_dn m = false -> tag [":"; "d"; "n"]%byte (":"%byte :: m ++ ":"%byte :: rest) = None.
+(* ":dn" is not taken when what follows the colon is a rule name other than "dn" itself *)
+Lemma alnum_not_colon c : is_alnum_hyphen c = true -> beq c ":"%byte = false.
+Proof. destruct c; vm_compute; congruence. Qed.
+Lemma Oid_dn_third c3 w : Oid ("d"%byte :: "n"%byte :: c3 :: w) -> beq c3 ":"%byte = false.
 Proof.
-  intros Ho Hs. destruct (Oid_head _ Ho) as (c & w & -> & _). cbn [tag app]. change (beq ":" ":")%byte with true. cbn match.
-  destruct (beq "d" c) eqn:Ed; [|reflexivity]. destruct w as [|b w]; cbn [app].
-  - reflexivity.
-  - destruct (beq "n" b) eqn:En; [|reflexivity]. exfalso.
-    apply Byte.byte_dec_bl in Ed, En. subst. cbn in Hs. discriminate.
+  intros [(d & ds & (Hne & Hdig & _) & _ & _ & E)|(c & w' & E & _ & Hw)].
+  - destruct d as [|x d']; [congruence|]. cbn in E. injection E as <- _. cbn in Hdig. discriminate.
+  - injection E as <- <-. cbn [forallb] in Hw. apply andb_true_iff in Hw as [_ Hw]. apply andb_true_iff in Hw as [Hc _]. now apply alnum_not_colon.
 Qed.
-
+Lemma opt_dn_rule m r : Oid m -> m <> ["d"; "n"]%byte ->
+  opt_dn (":"%byte :: m ++ ":"%byte :: r) = (false, ":"%byte :: m ++ ":"%byte :: r).
+Proof.
+  intros Ho Hne. destruct (Oid_head _ Ho) as (c & w & -> & _). unfold opt_dn. cbn [tag app]. change (beq ":" ":")%byte with true. cbn match.
+  destruct (beq "d" c) eqn:Ed; [|reflexivity]. destruct w as [|b w]; cbn [app tag].
+  - reflexivity.
+  - destruct (beq "n" b) eqn:En; [|reflexivity].
+    apply Byte.byte_dec_bl in Ed, En. subst c b. destruct w as [|c3 w]; [congruence|]. cbn [app].
+    now rewrite (Oid_dn_third c3 w Ho).
+Qed.
 Lemma opt_mrule_some m rest : Oid m -> opt_mrule (":"%byte :: m ++ ":"%byte :: "="%byte :: rest) = (Some m, ":"%byte :: "="%byte :: rest).
 Proof. intros Ho. unfold opt_mrule. cbn [tag]. change (beq ":" ":")%byte with true. cbn match.
   rewrite (attributetype_app _ _ Ho); [reflexivity|]. cbn. split; reflexivity. Qed.
 Lemma opt_mrule_none rest : opt_mrule (":"%byte :: "="%byte :: rest) = (None, ":"%byte :: "="%byte :: rest).
 Proof. reflexivity. Qed.
 
-Lemma opt_tag_dn r : opt_tag [":"; "d"; "n"]%byte (":"%byte :: "d"%byte :: "n"%byte :: r) = (true, r).
+Lemma opt_tag_dn r : opt_dn (":"%byte :: "d"%byte :: "n"%byte :: ":"%byte :: r) = (true, ":"%byte :: r).
 Proof. reflexivity. Qed.
 Lemma tag_colon r : tag [":"%byte] (":"%byte :: r) = Some r.
 Proof. reflexivity. Qed.
 Lemma tag_coloneq r : tag [":"; "="]%byte (":"%byte :: "="%byte :: r) = Some r.
 Proof. reflexivity. Qed.
-Lemma opt_tag_dn_coloneq r : opt_tag [":"; "d"; "n"]%byte (":"%byte :: "="%byte :: r) = (false, ":"%byte :: "="%byte :: r).
+Lemma opt_tag_dn_coloneq r : opt_dn (":"%byte :: "="%byte :: r) = (false, ":"%byte :: "="%byte :: r).
 Proof. reflexivity. Qed.
-Lemma opt_tag_dn_rule m r : Oid m -> starts_dn m = false ->
-  opt_tag [":"; "d"; "n"]%byte (":"%byte :: m ++ ":"%byte :: r) = (false, ":"%byte :: m ++ ":"%byte :: r).
-Proof. intros Hm Hs. unfold opt_tag. now rewrite (tag_dn_none _ _ Hm Hs). Qed.
-
 Lemma attr_dn_mrule_app a dn mr v s rest :
   AttrDesc a -> (match mr with Some m => Oid m | None => True end) -> ValEnc v s -> item_stop rest ->
   ~ KnownF14 (IExt mr (Some a) dn v) ->
@@ -383,8 +392,7 @@ Proof.
   destruct dn, mr as [m|]; cbn [dnstr app]; rewrite <- ?app_assoc; cbn [app].
   - rewrite opt_tag_dn, (opt_mrule_some _ _ Hm), tag_coloneq, Hu. reflexivity.
   - rewrite opt_tag_dn, opt_mrule_none, tag_coloneq, Hu. reflexivity.
-  - assert (Hs : starts_dn m = false) by (destruct (starts_dn m) eqn:E; [exfalso; apply Hk; exact E|reflexivity]).
-    rewrite (opt_tag_dn_rule _ _ Hm Hs), (opt_mrule_some _ _ Hm), tag_coloneq, Hu. reflexivity.
+  - rewrite (opt_dn_rule _ _ Hm Hk), (opt_mrule_some _ _ Hm), tag_coloneq, Hu. reflexivity.
   - rewrite opt_tag_dn_coloneq, opt_mrule_none, tag_coloneq, Hu. reflexivity.
 Qed.
 
@@ -397,8 +405,7 @@ Proof.
   { intros r. apply attributetype_app; [assumption|]. cbn. split; reflexivity. }
   destruct dn; cbn [dnstr app]; rewrite <- ?app_assoc; cbn [app].
   - rewrite opt_tag_dn, tag_colon, Hat, tag_coloneq, Hu. reflexivity.
-  - assert (Hs : starts_dn m = false) by (destruct (starts_dn m) eqn:E; [exfalso; apply Hk; exact E|reflexivity]).
-    rewrite (opt_tag_dn_rule _ _ Hm Hs), tag_colon, Hat, tag_coloneq, Hu. reflexivity.
+  - rewrite (opt_dn_rule _ _ Hm Hk), tag_colon, Hat, tag_coloneq, Hu. reflexivity.
 Qed.
 
 Theorem item_complete it s rest : ItemStr it s -> ~ KnownF14 it -> item_stop rest ->
@@ -523,17 +530,22 @@ Proof.
     rewrite Ef. pose proof (item_complete _ _ [] H Hn I) as E. rewrite app_nil_r in E. now rewrite E.
 Qed.
 
-(* the property as stated is false of the code as it is: *)
+(* why the exclusion is needed, whatever the parser: the one string "cn:dn:=x" is denoted by two different items *)
 Require Import Coq.Strings.String.
-Lemma c08_complete_refuted : exists f s, Denote f s /\ parse s = None.
+Lemma c08_dn_rule_ambiguity : exists it1 it2 s, it1 <> it2 /\ ItemStr it1 s /\ ItemStr it2 s.
 Proof.
-  exists (FItem (IExt (Some (s2b "dnMatch")) (Some (s2b "cn")) false (s2b "x"))), (s2b "(cn:dnMatch:=x)").
-  split; [|vm_compute; reflexivity].
-  apply D_filter. change (s2b "(cn:dnMatch:=x)") with ("("%byte :: (s2b "cn" ++ dnstr false ++ (":"%byte :: s2b "dnMatch") ++ ":"%byte :: "="%byte :: s2b "x") ++ [")"%byte]).
-  apply FS_Item. apply (S_ExtA (s2b "cn") false (Some (s2b "dnMatch")) (s2b "x") (s2b "x")).
-  - exists (s2b "cn"), []. repeat split; [right; exists "c"%byte, ["n"%byte]; repeat split|constructor].
-  - right. exists "d"%byte, (s2b "nMatch"). repeat split.
-  - repeat (apply VE_plain; [reflexivity|]). constructor.
+  exists (IExt None (Some (s2b "cn")) true (s2b "x")), (IExt (Some (s2b "dn")) (Some (s2b "cn")) false (s2b "x")), (s2b "cn:dn:=x").
+  assert (Ha : AttrDesc (s2b "cn")) by (exists (s2b "cn"), []; repeat split; [right; exists "c"%byte, ["n"%byte]; repeat split|constructor]).
+  assert (Hv : ValEnc (s2b "x") (s2b "x")) by (repeat (apply VE_plain; [reflexivity|]); constructor).
+  split; [discriminate|]. split.
+  - change (s2b "cn:dn:=x") with (s2b "cn" ++ dnstr true ++ [] ++ ":"%byte :: "="%byte :: s2b "x").
+    apply (S_ExtA (s2b "cn") true None (s2b "x") (s2b "x")); [exact Ha|exact I|exact Hv].
+  - change (s2b "cn:dn:=x") with (s2b "cn" ++ dnstr false ++ (":"%byte :: s2b "dn") ++ ":"%byte :: "="%byte :: s2b "x").
+    apply (S_ExtA (s2b "cn") false (Some (s2b "dn")) (s2b "x") (s2b "x")); [exact Ha| |exact Hv].
+    right. exists "d"%byte, ["n"%byte]. repeat split.
 Qed.
+(* F14's former witnesses are now within the theorem's domain *)
+Example c08_dnmatch_in_domain : NoF14 (FItem (IExt (Some (s2b "dnMatch")) (Some (s2b "cn")) false (s2b "x"))).
+Proof. cbn. discriminate. Qed.
 Print Assumptions c08_complete_modulo_F14.
-Print Assumptions c08_complete_refuted.
+Print Assumptions c08_dn_rule_ambiguity.
